@@ -22,7 +22,7 @@ var errInjected = errors.New("injected I/O error")
 type src struct {
 	data   []byte
 	pos    int
-	mode   string // mem | onebyte | chunks | dataeof
+	mode   string // mem | onebyte | chunks | dataeof | dataeof-full (every request satisfied in full, EOF with the last bytes)
 	fin    error  // io.EOF or errInjected
 	r      *rand.Rand
 	pulled int
@@ -63,7 +63,7 @@ func (s *src) Read(p []byte) (int, error) {
 	// data together with the end-of-stream indication. (An injected I/O error is always reported by a read that
 	// returns no data: the model's `ioerr` has exactly that meaning; data+error in one call makes bufio report
 	// the error where the limit reader would have reported EOF, which the flat model does not express.)
-	if s.mode == "dataeof" && s.pos == len(s.data) && s.fin == io.EOF {
+	if (s.mode == "dataeof" || s.mode == "dataeof-full") && s.pos == len(s.data) && s.fin == io.EOF {
 		return n, s.fin
 	}
 	return n, nil
